@@ -8,7 +8,7 @@ import json
 from vlib import core, demtext, gatetable, gencirc, stimtext
 from vlib.stimtext import Instr, T
 
-REPS = [1, 2, 3, 4, 5, 6, 7, 8, 9, 10, 11, 12, 13, 19, 20, 21, 33, 64, 100, 257]
+REPS = [1, 2, 3, 4, 5, 6, 7, 8, 9, 10, 11, 12, 13, 19, 20, 21, 33, 64, 100, 257, 1000, 2049]
 
 
 def transient_case(rng):
@@ -231,7 +231,7 @@ def run(rep, tier):
     # generated benchmark circuits with many rounds
     for code, task in [('repetition_code', 'memory'), ('surface_code', 'rotated_memory_x'), ('surface_code', 'unrotated_memory_z'),
                        ('color_code', 'memory_xyz')]:
-        for rounds in ([3, 12, 50] if quick else [2, 3, 5, 6, 7, 12, 13, 50, 1000]):
+        for rounds in ([3, 12, 50, 1000] if quick else [2, 3, 5, 6, 7, 12, 13, 50, 1000, 20000]):
             d = 3
             rc, so, se = core.run_stim(['gen', '--code', code, '--task', task, '--distance', str(d), '--rounds', str(rounds),
                                         '--after_clifford_depolarization', '0.001', '--before_measure_flip_probability', '0.01'])
